@@ -8,6 +8,7 @@ the combined accessors, matrix(), forward, inverse (also through the cache) agai
 outcomes and initial q-vectors exactly."""
 import copy, math
 import numpy as np
+import math
 import torch
 from harness.common import leandriver, bits
 
@@ -297,6 +298,32 @@ def prepare(cls, f, k, mode, pk, seed):
     return m, X, prec
 
 
+def large_scaled(ctx, report=None):
+    """many features and globally scaled weights: log|det W| is moderate while det W itself over/underflows the dtype — the accessors
+    must still describe one map (logabsdet() = log|det weight()|, forward/inverse log-dets = +-logabsdet())"""
+    import nflows.transforms as T
+    gen = torch.Generator().manual_seed(ctx.seed + 1111)
+    for (f, scale) in ((100, 0.3), (100, 2.5), (40, 10.0), (128, 0.25)):
+        for cls in ('NaiveLinear', 'LULinear'):
+            torch.manual_seed(f * 7 + int(scale * 10))
+            m = T.NaiveLinear(f) if cls == 'NaiveLinear' else T.LULinear(f, identity_init=True)
+            with torch.no_grad():
+                if cls == 'NaiveLinear':
+                    m._weight.mul_(scale)                       # orthogonal init times a scalar: condition number 1
+                else:
+                    m.unconstrained_upper_diag.copy_(torch.log(torch.expm1(torch.full((f,), abs(scale)))))   # softplus^-1
+            m.eval()
+            X = torch.randn(3, f, generator=gen)
+            case = {'class': cls, 'features': f, 'num_transforms': None, 'mode': None, 'params': 'scaled%g' % scale, 'seed': 0}
+            fails = oracle_module(m, cls, X, 'f32', kappa=4.0)
+            if report is None:
+                ctx.case(key=('large-scaled', cls, f, scale), branch='large-scaled/' + cls, nontrivial=True)
+                for (sym, what, extra) in fails[:1]:
+                    ctx.disagree('c11/large-scaled', case, what, 'accessors agree (log|det| = %g)' % (f * math.log(abs(scale))), sym)
+            elif fails:
+                report(fails, case)
+
+
 def side_conditions(ctx):
     """decidable hypotheses of the theorems, checked on the constants read from the code at run time"""
     for cls in ('LULinear', 'SVDLinear'):
@@ -357,6 +384,7 @@ def oracle_conv(B, C, H, W, mode, pk, seed):
 
 def correspondence(ctx):
     side_conditions(ctx)
+    large_scaled(ctx)
     # --- 1. index order (read from the modules, not from numpy directly) -----------------------------------
     reqs, metas = [], []
     for n in range(0, 9):
@@ -608,6 +636,7 @@ def _report(ctx, fails, case):
 
 def search(ctx):
     sub = 0
+    large_scaled(ctx, report=lambda fails, case: _report(ctx, fails, case))
     # first the cases the correspondence disagreed on, then the whole generator
     seen = set()
     todo = []
